@@ -34,6 +34,8 @@ def strat(tier):
         'seed': st.one_of(st.integers(0, 2 ** 32 - 1), st.integers(0, 20)),
         'mpb': st.integers(1, 4),
         'extra_outputs': st.booleans(),
+        # an earlier run on the SAME sampler object (None | 'same' objective | ('n_sim', k) with a larger budget)
+        'prerun': st.one_of(st.none(), st.none(), st.just('same'), st.tuples(st.just('n_sim'), st.integers(n, 300))),
     }))
 
 
@@ -72,6 +74,10 @@ def run_case(case):
                              max_parallel_batches=case['mpb'])
         # a run in this domain costs milliseconds (threshold >= 5th pilot percentile): 60 s means it never finishes
         with time_limit(60, 'C01:run-does-not-terminate', 'Rejection.sample(%d, %r) with batch_size %d' % (n, objkw, bs)):
+            pre = case.get('prerun')
+            if pre is not None:
+                rej.sample(n, bar=False, **(objkw if pre == 'same' else {'n_sim': int(pre[1])}))
+                models.reset()        # the oracle judges the second run by what the second run consumed
             res = rej.sample(n, bar=False, **objkw)
     log = list(models.LOG)
     bis = [b for b, _, _ in log]
@@ -154,6 +160,8 @@ def run_case(case):
         labels.append('extra-outputs')
     if case['mpb'] > 1:
         labels.append('mpb>1')
+    if case.get('prerun') is not None:
+        labels.append('second-run-on-same-sampler')
     if desc['disc'] != 'custom':
         labels.append('Distance-node')
     nontrivial = True if (B >= 2 and B * bs > n) else None
@@ -223,7 +231,7 @@ CHECK = Check(
     rule=('Hypothesis-generated models (1-3 parameters with uniform/normal/discrete/hierarchical priors in arbitrary name order, scalar/'
           'vector simulator output, float or tie-producing integer outputs, custom discrepancy with a rule mapping part of the range to '
           'inf or a scipy Distance node) x n_samples 1..20 x batch_size 1..12 x objective (n_sim in [n_samples,200] | quantile in '
-          '[0.05,1] | threshold = 5..80 % pilot percentile) x max_parallel_batches 1..4 x seed. Non-trivial = at least 2 batches '
+          '[0.05,1] | threshold = 5..80 % pilot percentile) x max_parallel_batches 1..4 x seed x an optional earlier run on the same sampler object. Non-trivial = at least 2 batches '
           'consumed and more draws than n_samples (something was rejected); distinct by hash of the case.'),
     parts=[Part('rejection', run_case, strategy=strat, examples={'quick': 800, 'thorough': 32000}),
            Part('adaptive-distance', run_adaptive, strategy=strat_adaptive, examples={'quick': 200, 'thorough': 8000})],
